@@ -167,7 +167,13 @@ func (c *ChunkComposer) RunLoop(reader io.Reader, cb OnCompleteMessage) error {
 
 		// 本次chunk的大小：message中还没有收到的部分，并且不超过对端的chunk size
 		// 注意，不能用整个message的大小和chunk size比较：对端可能在一个message的多个chunk之间修改chunk size
-		neededSize := stream.header.MsgLen - stream.msg.Len()
+		// 已经收到的部分比header中声明的message长度还长（对端在一个message没收完时发送了一个长度更小的新header），
+		// 此时无符号减法会回绕成一个巨大的值
+		receivedSize := stream.msg.Len()
+		if receivedSize > stream.header.MsgLen {
+			return base.NewErrRtmpShortBuffer(int(stream.header.MsgLen), int(receivedSize), "len of msg bigger than msg len of header")
+		}
+		neededSize := stream.header.MsgLen - receivedSize
 		if neededSize > c.peerChunkSize {
 			neededSize = c.peerChunkSize
 		}
